@@ -13,6 +13,7 @@ import collections
 import builtins as _builtins
 import enum
 import sys
+import time
 import types
 
 import z3
@@ -467,11 +468,19 @@ class Path:
         else:
             s = z3.Solver()
             s.set('timeout', timeout)
+            # the time limit is not honoured inside some arithmetic tactics (div/mod goals ran 3-9 s): a resource
+            # limit bounds the work deterministically; giving up only means "not proved inline" (the caller falls
+            # back to a case split or an exact encoding, or the fact becomes a regular obligation)
+            s.set('rlimit', int(_os.environ.get('PYVC_INLINE_RLIMIT', '3000000')))
             for p in self.pc:
                 if not has_quantifier(p):  # as in feasible(): entailment from fewer hypotheses is still entailment
                     s.add(p)
             s.add(z3.Not(c))
-            r = s.check() == z3.unsat
+            t0 = time.time()
+            rr = s.check()
+            r = rr == z3.unsat
+            if DEBUG and time.time() - t0 > 0.5:
+                print(f'[proves {time.time() - t0:.1f}s {rr}] at {self.cur_loc} pc={len(self.pc)} goal={str(c)[:160]}', file=sys.stderr, flush=True)
         cache[key] = r
         return r
 
